@@ -31,6 +31,97 @@ Definition print_codes (l : list code_row) : list tok :=
                  let '(c, n, w, _) := r in
                  [Proto.TInt c; TSym (zs_of_string n); Proto.TInt (match w with Some k => Z.of_nat k | None => -1 end)]) l.
 
+(* The REFERENCE reading of a class name: the hand-written table of Spec/Wire.v ([spec_codes],
+   [spec_uncoded]), NOT the regenerated rows (through which Extract/ExCodec.v's parser, hence the
+   model, resolves names): a changed format / length type / host type in the library moves the model
+   but not the reference.  Names outside the table (Revision, ...) are resolved as the model does. *)
+Fixpoint lookup_code_row (l : list code_row) (s : list Z) : option (option ty) :=
+  match l with
+  | [] => None
+  | (_, n, _, t) :: r => if zs_eqb (zs_of_string n) s then Some t else lookup_code_row r s
+  end.
+Definition ref_named_ty (s : list Z) : option ty :=
+  match lookup_code_row (spec_codes ++ spec_uncoded) s with
+  | Some t => t
+  | None => named_ty s
+  end.
+
+(* Extract/ExCodec.v's [parse_ty] with [ref_named_ty] for the leaves *)
+Fixpoint parse_sty (fuel : nat) (ts : list tok) : option (ty * list tok) :=
+  match fuel with
+  | O => None
+  | S f =>
+      match ts with
+      | TSym s :: r =>
+          if zs_eqb s (zs_of_string "nbytes") then
+            match r with Proto.TInt n :: r1 => Some (TNBytes n, r1) | _ => None end
+          else if zs_eqb s (zs_of_string "arr") then
+            match r with
+            | Proto.TInt n :: r1 => match parse_sty f r1 with Some (e, r2) => Some (TArrFixed (Z.to_nat n) e, r2) | None => None end
+            | _ => None
+            end
+          else if zs_eqb s (zs_of_string "arrp") then
+            match r with
+            | Proto.TInt i :: r1 =>
+                match parse_sty f r1 with
+                | Some (lt, r2) => match parse_sty f r2 with Some (e, r3) => Some (TArrPrefix (negb (i =? 0)) lt e, r3) | None => None end
+                | None => None
+                end
+            | _ => None
+            end
+          else if zs_eqb s (zs_of_string "arrall") then
+            match parse_sty f r with Some (e, r1) => Some (TArrAll e, r1) | None => None end
+          else if zs_eqb s (zs_of_string "struct") then
+            match r with
+            | Proto.TInt k :: r1 =>
+                match parse_n (fun ts => match parse_key ts with
+                                         | Some (key, r) => match parse_sty f r with Some (t, r') => Some ((key, t), r') | None => None end
+                                         | None => None
+                                         end) (Z.to_nat k) r1 with
+                | Some (ms, r2) => Some (TStruct SPlain ms, r2)
+                | None => None
+                end
+            | _ => None
+            end
+          else if zs_eqb s (zs_of_string "fss") then
+            match r with
+            | Proto.TInt cap :: r1 =>
+                match parse_sty f r1 with
+                | Some (lt, Proto.TInt capacity :: r2) =>
+                    match is_int_ty lt with Some (sg, w) => Some (TFixedStr (Z.to_nat cap) sg w (Z.to_nat capacity), r2) | None => None end
+                | _ => None
+                end
+            | _ => None
+            end
+          else if zs_eqb s (zs_of_string "stag") then
+            match r with
+            | Proto.TInt k :: r1 =>
+                match parse_n (fun ts => match parse_key ts with
+                                         | Some (key, Proto.TInt off :: r) =>
+                                             match parse_sty f r with Some (t, r') => Some (((key, Z.to_nat off), t), r') | None => None end
+                                         | _ => None
+                                         end) (Z.to_nat k) r1 with
+                | Some (ms, Proto.TInt nb :: r2) =>
+                    match parse_n (fun ts => match ts with
+                                             | TText n :: Proto.TInt off :: Proto.TInt bit :: r => Some ((n, (Z.to_nat off, Z.to_nat bit)), r)
+                                             | _ => None
+                                             end) (Z.to_nat nb) r2 with
+                    | Some (bits, Proto.TInt np :: r3) =>
+                        match parse_n (fun ts => match ts with TText n :: r => Some (n, r) | _ => None end) (Z.to_nat np) r3 with
+                        | Some (priv, Proto.TInt size :: r4) => Some (TStructTag ms bits priv (Z.to_nat size), r4)
+                        | _ => None
+                        end
+                    | _ => None
+                    end
+                | _ => None
+                end
+            | _ => None
+            end
+          else match ref_named_ty s with Some t => Some (t, r) | None => None end
+      | _ => None
+      end
+  end.
+
 Definition handle7 (ts : list tok) : list tok :=
   let fuel := S (length ts) in
   match ts with
@@ -40,7 +131,7 @@ Definition handle7 (ts : list tok) : list tok :=
       else if is_sym "r64" cmd then [Proto.TInt (spec_real64_of_32 b)]
       else bad
   | cmd :: r =>
-      match parse_ty fuel r with
+      match parse_sty fuel r with
       | None => bad
       | Some (t, r1) =>
           if is_sym "senc" cmd then
